@@ -164,6 +164,61 @@ def circuit_items(tier):
     return [Item("circuit_decompose_mixed", "circuit_decompose", 3, b, meta={"circuit": "CRY,RXXYY,CCZ,U3,ECR on 4 qubits"})]
 
 
+def _snap(gs):
+    return [(type(g).__name__, tuple(g.control_qubits), tuple(g.target_qubits),
+             tuple(complex(x) for x in np.asarray(g.parameters, dtype=complex).ravel()) if g.parameters is not None else ())
+            for g in gs]
+
+
+def history_checks(run, rng, only=None):
+    """decompose() depends on the gate's CURRENT value only and hands out gates the caller may edit:
+    (a) a gate object is decomposed, its parameters are updated, it is decomposed again -> the second
+    result must be the decomposition of a fresh gate with the new values (the one the symbolic
+    obligations are about); (b) the gates returned by a decomposition are edited by the caller ->
+    every later decomposition of a fresh gate is unchanged.  Identity placement and a non-ascending
+    placement, every class of the catalogue."""
+    ok_all = True
+    for name, nq, ps in qtrace.catalogue():
+        if only and name != only:
+            continue
+        for qs in (list(range(nq)), [PLACE[i] for i in range(nq)]):
+            n = max(qs) + 1
+            v1 = [round(rng.uniform(0.1, 1.4), 3) for _ in ps]
+            v2 = [round(rng.uniform(0.1, 1.4), 3) for _ in ps]
+            try:
+                ref = _snap(qtrace.make_gate(name, qs, v2).decompose())
+                g = qtrace.make_gate(name, qs, v1)
+                d1 = g.decompose()
+                if ps:
+                    g.parameters = tuple(v2)
+                d2 = g.decompose()
+                run.case(["history", name, len(qs) == nq and qs == list(range(nq))])
+                if _snap(d2) != ref:
+                    ok_all = False
+                    dist = qtrace.phase_distance(qtrace.full_unitary(d2, n), qtrace.full_unitary([qtrace.make_gate(name, qs, v2)], n))
+                    run.find(f"decompose_history:stale:{name}",
+                             f"{name}{tuple(qs)}: decomposed with parameters {v1}, parameters set to {v2}, decomposed again: "
+                             f"the second decomposition is not the one of a fresh {name}{tuple(v2)} (distance from the gate up to phase {dist:.3g})",
+                             {"class": name, "qubits": qs, "params_before": v1, "params_after": v2, "distance": dist}, concrete=dist > 1e-8)
+                # the caller edits what it got back
+                for h in list(d1) + list(d2):
+                    if getattr(h, "parameters", ()) and type(h).__name__ != "Unitary":
+                        h.parameters = tuple(0.777 for _ in h.parameters)
+                fresh = qtrace.make_gate(name, qs, v2)
+                d3 = fresh.decompose()
+                if _snap(d3) != ref:
+                    ok_all = False
+                    dist = qtrace.phase_distance(qtrace.full_unitary(d3, n), qtrace.full_unitary([qtrace.make_gate(name, qs, v2)], n))
+                    run.find(f"decompose_history:aliased:{name}",
+                             f"{name}{tuple(qs)}: after the caller set the parameters of the gates returned by an earlier decomposition "
+                             f"to 0.777, a fresh {name}{tuple(v2)} decomposes differently (distance from the gate up to phase {dist:.3g})",
+                             {"class": name, "qubits": qs, "params": v2, "distance": dist}, concrete=dist > 1e-8)
+            except Exception as e:  # noqa: BLE001
+                ok_all = False
+                run.find(f"decompose_history:raises:{name}", f"{name}{tuple(qs)}: {type(e).__name__}: {e}", {"class": name, "qubits": qs})
+    run.oblige("decompose_is_a_function_of_the_current_gate", ok_all, "correspondence")
+
+
 RULE = ("one obligation per (gate class x placement); all classes of gates.py enumerated from the source; "
         "multi-controlled X instances by number of controls / free qubits / Toffoli substitution")
 
@@ -174,6 +229,7 @@ def main(run):
                     "lib/symtrace.py tracer; floats within 4 ulp of (p/q)*pi, q<=64, are read as that multiple of pi",
                     "Base/Mat.v embed/cembed as the meaning of 'gate on qubits'"]
     run.assumptions += ["exact real arithmetic (rounding not modelled)"]
+    history_checks(run, rng)
     tables.run_items(run, table_items(run.tier), "C08_tables", rng)
     tables.run_items(run, mcx_items(run.tier), "C08_mcx", rng)
     mcx_boolean(run, rng)
@@ -186,6 +242,9 @@ def main(run):
 def replay(run, data):
     rng = random.Random(0)
     key = data["key"]
+    if key.startswith("decompose_history:"):
+        history_checks(run, rng, only=data["replay"].get("class"))
+        return run.finish(rule="replay of one recorded history")
     if key.startswith("mcx_model:"):
         from harness import c08_mcx_model
         c08_mcx_model.replay_model_case(run, data["replay"])
